@@ -6,32 +6,42 @@
 From V Require Import lib.Base model.Lifecycle proofs.LifecycleP proofs.LifecycleTie gen.Gen_lifecycle.
 
 (* 1. the disconnect hook never runs twice, in any history, whatever fails *)
-Theorem c11_hook_at_most_once : forall P es, core_ok P = true -> hooks (runs P es fresh) <= 1.
+Theorem c11_hook_at_most_once : forall P hr es, core_ok P = true -> hooks (runs P hr es fresh) <= 1.
 Proof. exact hooks_at_most_once. Qed.
 Print Assumptions c11_hook_at_most_once.
 
 (* 2. whenever a side reports closed, its hook has run exactly once, the objects it held are released, its channel is closed *)
-Theorem c11_closed_means_clean : forall P es, core_ok P = true -> closed (runs P es fresh) = true -> ended_clean (runs P es fresh).
+Theorem c11_closed_means_clean : forall P hr es, core_ok P = true -> closed (runs P hr es fresh) = true -> ended_clean (runs P hr es fresh).
 Proof. exact closed_means_clean. Qed.
 Print Assumptions c11_closed_means_clean.
 
 (* 3. after any history, a side that closes, is told to close, or meets the failure while serving IS closed and clean when
       control returns — for every outcome of the write close() makes (fine, EOFError, any other failure) *)
-Theorem c11_ends_clean : forall P es e, core_ok P = true -> must_end P e = true -> ended_clean (fst (step P e (runs P es fresh))).
+Theorem c11_ends_clean : forall P hr es e, core_ok P = true -> must_end P e = true -> ended_clean (fst (step P hr e (runs P hr es fresh))).
 Proof. exact ends_clean. Qed.
 Print Assumptions c11_ends_clean.
 
 (* 4. closing again is a no-op *)
-Theorem c11_close_idempotent : forall P w s, Lifecycle.close_checks_closed_first P = true -> closed s = true -> do_close P w s = (s, RNone).
+Theorem c11_close_idempotent : forall P hr w s, Lifecycle.close_checks_closed_first P = true -> closed s = true -> do_close P hr w s = (s, RNone).
 Proof. exact close_idempotent. Qed.
 Print Assumptions c11_close_idempotent.
 
 (* 5. F6: on a tree whose serve() does not close when EOFError escapes _dispatch, a side that meets the failure while it serves a
       callback during AsyncResult.wait stays open and its hook never runs; [must_end] then excludes that entry point from 3 *)
-Theorem c11_fault_in_dispatch_refuted : forall P, Lifecycle.serve_dispatch_eof_closes P = false ->
-  let s := fst (step P (EDispatchEof InWait) fresh) in closed s = false /\ hooks s = 0.
+Theorem c11_fault_in_dispatch_refuted : forall P hr, Lifecycle.serve_dispatch_eof_closes P = false ->
+  let s := fst (step P hr (EDispatchEof InWait) fresh) in closed s = false /\ hooks s = 0.
 Proof. exact dispatch_eof_refuted. Qed.
 Print Assumptions c11_fault_in_dispatch_refuted.
+
+(* 5b. the service's disconnect hook may raise ([hr] above is "the hook raises"; theorems 1-4 hold either way once the clearing sits in
+       a finally). On a tree where it does not, close() with a raising hook leaves the side reporting closed with everything it held for
+       the peer still in place, for ever (closing again is the identity) *)
+Theorem c11_raising_hook_refuted : forall P w, Lifecycle.cleanup_clears_in_finally P = false -> Lifecycle.close_checks_closed_first P = true ->
+  Lifecycle.close_sets_closed_before_io P = true -> Lifecycle.close_cleanup_in_finally P = true ->
+  let s := fst (do_close P true w fresh) in
+  closed s = true /\ has_root s = true /\ forall w', do_close P true w' s = (s, RNone).
+Proof. exact raising_hook_refuted. Qed.
+Print Assumptions c11_raising_hook_refuted.
 
 (* 6. tie: the source's close/_cleanup/serve/serve_all have the guarded shapes; [c11_live] says which of 3 / 5 is live for the
       dispatch-write entry point on the current tree *)
@@ -45,7 +55,7 @@ Print Assumptions c11_live.
 
 (* non-vacuity: both sides' typical endings *)
 Example c11_histories :
-  ended_clean (runs std_params [EClose WErr; EClose WOk; EHandleClose] fresh)
-  /\ ended_clean (runs std_params [EServeReadEof InWait; EClose WOk; EDispatchEof InServeAll] fresh)
-  /\ hooks (runs std_params [EDispatchEof InWait; EHandleClose; EServeReadEof InServeAll; EClose WEof] fresh) = 1.
+  ended_clean (runs std_params false [EClose WErr; EClose WOk; EHandleClose] fresh)
+  /\ ended_clean (runs std_params true [EServeReadEof InWait; EClose WOk; EDispatchEof InServeAll] fresh)
+  /\ hooks (runs std_params true [EDispatchEof InWait; EHandleClose; EServeReadEof InServeAll; EClose WEof] fresh) = 1.
 Proof. vm_compute. repeat split. Qed.
